@@ -148,6 +148,9 @@ def history(rnd, hist_id, length):
             ops.append({'op': 'oss.op', 'k': 'erase', 'p': (len(kinds) - 1 if rnd.random() < 0.4 else anyp) if rnd.random() < 0.9 else {'raw': 424242}})
         elif r < 0.97:
             ops.append({'op': 'oss.op', 'k': 'reload', 'seed': rnd.randrange(1 << 30)})
+            if rnd.random() < 0.6:
+                # a leaf erased right after a reload: the loaded graph rows are in document order, not creation order
+                ops.append({'op': 'oss.op', 'k': 'erase', 'p': pick('op')})
         else:
             ops.append({'op': 'oss.op', 'k': 'connect', 'p': anyp if not directed or rnd.random() < 0.3 else pick('base'), 'schema': doc_schema(rnd, shape)})
     ops.append({'op': 'oss.drop'})
